@@ -6,6 +6,7 @@ import (
 	"bufio"
 	"fmt"
 	"io"
+	"os"
 	"os/exec"
 	"strconv"
 	"strings"
@@ -26,6 +27,9 @@ type sym struct {
 	k sortKind
 	w int    // bit width for sBV
 	t string // SMT-LIB2 term text (small: big terms are named with define-fun)
+
+	atom bool    // a declared constant (its bytes can be tracked)
+	by   []bpart // byte decomposition, least significant first (nil = unknown)
 }
 
 func (s *sym) String() string { return s.t }
@@ -177,6 +181,7 @@ type Solver struct {
 	script []string // everything sent since the last reset (for standalone dumps)
 	Stats  SolverStats
 	nname  int
+	nslow  int
 	TimeMS int
 	dead   bool
 }
@@ -288,6 +293,10 @@ func (s *Solver) Check(extra string) string {
 		lines = s.roundTrip("(check-sat)")
 	}
 	s.Stats.Seconds += time.Since(t0).Seconds()
+	if d := os.Getenv("VERIF_SLOWQ"); d != "" && time.Since(t0) > 5*time.Second {
+		s.nslow++
+		os.WriteFile(fmt.Sprintf("%s/slowq-%d-%d.smt2", d, os.Getpid(), s.nslow), []byte(s.Script(extra)), 0o644)
+	}
 	res := "unknown"
 	bad := false
 	for _, l := range lines {
